@@ -53,6 +53,8 @@ def gen_base(rng):
         pb = next(p for p in b.posts if p.lot is not None)
         pb.lot, pb.lot_date = pa.lot, pa.lot_date
         pa.lot_note, pb.lot_note = rng.sample(['lotA', 'lotB', 'ira', 'taxable'], 2)
+        if rng.random() < 0.5:
+            pb.lot_note = None            # the same lot once with and once without a note
         pb.acct = pa.acct
         cash = next(p for p in b.posts if p.lot is None)
         cash.amt = X.Amt(-pb.lot.value * pb.amt.value, 2, '$')
@@ -155,6 +157,10 @@ def run_aggregates(ctx, main):
                 if v:
                     rows.append((f[0], f[1], f[2], v))
         out_[name] = (st, sorted(rows))
+    # the TEXT of the per-lot balance: the lines of an account come in the order of its lots (price, date, note), not in
+    # the order the lots were first seen
+    st, out, err = lib.run_ledger(['-f', main, 'bal', '--lots', '--flat', '--no-total'])
+    out_['lots-text'] = (st, [l.rstrip() for l in out.decode('utf-8', 'replace').split('\n') if l.strip()])
     return out_
 
 
@@ -395,11 +401,11 @@ def run(ctx, n_override=None):
                 compare_group_dates(res, 'j%dv%d' % (j, vi), xs, agg, main)
             if vi == 0:
                 ref_agg = agg
-            elif agg is not None and kind != 'pperm':
-                for cname in agg:
+            elif agg is not None:
+                for cname in (agg if kind != 'pperm' else ['lots-text']):
                     res.count('aggregate:' + cname)
                     if agg[cname] != ref_agg[cname]:
-                        res.violations.append(dict(key='aggregate-differs:%s:%s' % (cname, kind), desc='the aggregated report `%s` differs from the base journal\'s' % ' '.join(dict(AGG_COMMANDS)[cname]),
+                        res.violations.append(dict(key='aggregate-differs:%s:%s' % (cname, kind), desc='the aggregated report `%s` differs from the base journal\'s' % ' '.join(dict(AGG_COMMANDS).get(cname, ['bal', '--lots', '--flat'])),
                                                    case=dict(base=ref[3], variant=main, text=open(main).read()), observed=str(agg[cname])[:600], required=str(ref_agg[cname])[:600]))
             # oracle: identical to the base
             if ref is None:
